@@ -359,4 +359,352 @@ theorem ixor_bound {x y a b : Int} (hx0 : 0 ≤ x) (hxa : x ≤ a) (hy0 : 0 ≤ 
   show ((x.toNat ^^^ y.toNat : Nat) : Int) ≤ 2 ^ k - 1
   omega
 
+theorem mem_sat_hi {A : IR} {z hi : Int} (hm : A.mem z) :
+    (IR.mk (A.lo.map (imin · hi)) (A.hi.map (imin · hi))).mem (if z > hi then hi else z) := by
+  obtain ⟨h1, h2⟩ := hm
+  constructor
+  · cases hl : A.lo with
+    | none => simp [loLe]
+    | some a =>
+      rw [hl] at h1; simp only [loLe] at h1
+      simp only [Option.map_some, loLe, imin]
+      split <;> split <;> omega
+  · cases hh : A.hi with
+    | none => simp [leHi]
+    | some b =>
+      rw [hh] at h2; simp only [leHi] at h2
+      simp only [Option.map_some, leHi, imin]
+      split <;> split <;> omega
+
+theorem mem_sat_lo {A : IR} {z lo : Int} (hm : A.mem z) :
+    (IR.mk (A.lo.map (imax · lo)) (A.hi.map (imax · lo))).mem (if z < lo then lo else z) := by
+  obtain ⟨h1, h2⟩ := hm
+  constructor
+  · cases hl : A.lo with
+    | none => simp [loLe]
+    | some a =>
+      rw [hl] at h1; simp only [loLe] at h1
+      simp only [Option.map_some, loLe, imax]
+      split <;> split <;> omega
+  · cases hh : A.hi with
+    | none => simp [leHi]
+    | some b =>
+      rw [hh] at h2; simp only [leHi] at h2
+      simp only [Option.map_some, leHi, imax]
+      split <;> split <;> omega
+
+/-- what the shift rules know once `shiftBounds` exists and contains the amount's bounds -/
+theorem shift_amount_ok {b : Base} {slo shi y : Int} {rb : IR}
+    (hs : b.shiftBounds = some (slo, shi)) (hc : (!containsIR (mkIR slo shi) rb) = false)
+    (hr : rb.mem y) : 0 ≤ y ∧ y < (b.bits : Int) := by
+  obtain ⟨rfl, rfl, _, _⟩ := shiftBounds_spec hs
+  simp only [Bool.not_eq_false'] at hc
+  have := containsIR_mem hc hr
+  omega
+
+/-- Soundness of `bcheckExprBinaryOp1`: from operand bounds that contain the operand
+values, the operator's monitor holds and the result bounds contain the result. -/
+theorem binBounds_sound {env : Env} {fs : List Expr} {op : BOp} {l r : Expr} {lb rb nb : IR}
+    (hf : FactsHold env fs)
+    (hl : lb.mem (evalI env l)) (hr : rb.mem (evalI env r))
+    (hlt : op = .modshl → (typeOf l).base ≠ .ideal → inNatural (typeOf l).base (evalI env l))
+    (h : binBounds fs op l lb r rb = some nb) :
+    opMonitor op (opBase op l r) (evalI env l) (evalI env r) ∧
+      nb.mem (binSem op (opBase op l r) (evalI env l) (evalI env r)) := by
+  cases op
+  case plus =>
+    simp only [binBounds] at h; cases h
+    exact ⟨trivial, WuffsVerif.Props.C06.add_sound lb rb _ _ hl hr⟩
+  case minus =>
+    simp only [binBounds] at h; cases h
+    exact ⟨trivial, minusBounds_sound hf hl hr⟩
+  case star =>
+    simp only [binBounds] at h; cases h
+    exact ⟨trivial, WuffsVerif.Props.C06.mul_sound lb rb _ _ hl hr⟩
+  case slash =>
+    simp only [binBounds] at h
+    split at h
+    · cases h
+    · have := WuffsVerif.Props.C06.quo_sound lb rb nb _ _ hl hr h
+      exact ⟨this.1, this.2⟩
+  case percent =>
+    simp only [binBounds] at h
+    split at h
+    · cases h
+    · rename_i hg
+      simp only [Bool.or_eq_true, not_or, Bool.not_eq_true] at hg
+      have hx0 := loNeg_false hg.1 hl
+      have hy0 := loNonPos_false hg.2 hr
+      split at h
+      · rename_i hh hhi
+        cases h
+        have := mem_hi hr hhi
+        refine ⟨by simp only [opMonitor]; omega, ?_⟩
+        simp only [binSem, mem_mkIR]
+        have h1 := Int.tmod_nonneg (evalI env r) hx0
+        have h2 := Int.tmod_lt_of_pos (evalI env l) hy0
+        omega
+      · cases h
+  case shl =>
+    simp only [binBounds] at h
+    split at h
+    · rename_i slo shi tlo thi hs hn
+      split at h
+      · cases h
+      · rename_i hc
+        have hamt := shift_amount_ok hs (by simpa using hc) hr
+        have := WuffsVerif.Props.C06.lsh_sound lb rb nb _ _ hl hr h
+        exact ⟨by simpa [opMonitor, opBase] using hamt, by simpa [binSem] using this.2⟩
+    · cases h
+  case shr =>
+    simp only [binBounds] at h
+    split at h
+    · rename_i slo shi tlo thi hs hn
+      split at h
+      · cases h
+      · rename_i hc
+        have hamt := shift_amount_ok hs (by simpa using hc) hr
+        have := WuffsVerif.Props.C06.rsh_sound lb rb nb _ _ hl hr h
+        exact ⟨by simpa [opMonitor, opBase] using hamt, by simpa [binSem] using this.2⟩
+    · cases h
+  case modshl =>
+    simp only [binBounds] at h
+    split at h
+    · rename_i slo shi tlo thi hs hn
+      split at h
+      · cases h
+      · rename_i hc
+        have hamt := shift_amount_ok hs (by simpa using hc) hr
+        obtain ⟨_, _, hnb, hu⟩ := shiftBounds_spec hs
+        rw [hnb] at hn
+        simp only [Option.some.injEq, Prod.mk.injEq] at hn
+        obtain ⟨rfl, rfl⟩ := hn
+        refine ⟨by simpa [opMonitor, opBase] using hamt, ?_⟩
+        simp only [binSem, opBase]
+        have hp : (0 : Int) < 2 ^ (typeOf l).base.bits := Int.pow_pos (by decide)
+        split at h
+        · rename_i nb0 hlsh
+          have hs0 := (WuffsVerif.Props.C06.lsh_sound lb rb nb0 _ _ hl hr hlsh).2
+          split at h
+          · rename_i hh hhi
+            split at h
+            · cases h
+              rw [mem_mkIR]
+              have := Int.emod_nonneg (evalI env l * 2 ^ (evalI env r).toNat) (Int.ne_of_gt hp)
+              have := Int.emod_lt_of_pos (evalI env l * 2 ^ (evalI env r).toNat) hp
+              omega
+            · rename_i hle
+              cases h
+              have hne : (typeOf l).base ≠ .ideal := by
+                intro hc'; rw [hc'] at hs; simp [Base.shiftBounds] at hs
+              have hx0 : 0 ≤ evalI env l := by
+                have := hlt rfl hne
+                simp only [inNatural, range_of_numBounds hnb] at this
+                exact this.1
+              have hle2 := mem_hi hs0 hhi
+              have hpos : 0 ≤ evalI env l * 2 ^ (evalI env r).toNat :=
+                Int.mul_nonneg hx0 (Int.le_of_lt (Int.pow_pos (by decide)))
+              rw [Int.emod_eq_of_lt hpos (by omega)]
+              exact hs0
+          · cases h
+        · cases h
+    · cases h
+  case amp =>
+    simp only [binBounds] at h
+    split at h
+    · cases h
+    · rename_i hg
+      simp only [Bool.or_eq_true, not_or, Bool.not_eq_true] at hg
+      exact ⟨⟨loNeg_false hg.1 hl, loNeg_false hg.2 hr⟩,
+        WuffsVerif.Props.C06.and_sound lb rb nb _ _ hl hr h⟩
+  case pipe =>
+    simp only [binBounds] at h
+    split at h
+    · cases h
+    · rename_i hg
+      simp only [Bool.or_eq_true, not_or, Bool.not_eq_true] at hg
+      exact ⟨⟨loNeg_false hg.1 hl, loNeg_false hg.2 hr⟩,
+        WuffsVerif.Props.C06.or_sound lb rb nb _ _ hl hr h⟩
+  case hat =>
+    simp only [binBounds] at h
+    split at h
+    · cases h
+    · rename_i hg
+      simp only [Bool.or_eq_true, not_or, Bool.not_eq_true] at hg
+      have hx0 := loNeg_false hg.1 hl
+      have hy0 := loNeg_false hg.2 hr
+      split at h
+      · rename_i a b ha hb
+        cases h
+        refine ⟨⟨hx0, hy0⟩, ?_⟩
+        rw [mem_mkIR]
+        exact ixor_bound hx0 (mem_hi hl ha) hy0 (mem_hi hr hb)
+      · cases h
+  case modplus =>
+    simp only [binBounds] at h
+    split at h
+    · rename_i hu; exact ⟨trivial, emod_mem_unsigned hu _ h⟩
+    · cases h
+  case modminus =>
+    simp only [binBounds] at h
+    split at h
+    · rename_i hu; exact ⟨trivial, emod_mem_unsigned hu _ h⟩
+    · cases h
+  case modstar =>
+    simp only [binBounds] at h
+    split at h
+    · rename_i hu; exact ⟨trivial, emod_mem_unsigned hu _ h⟩
+    · cases h
+  case satplus =>
+    simp only [binBounds] at h
+    split at h
+    · split at h
+      · rename_i lo hi hn
+        cases h
+        refine ⟨trivial, ?_⟩
+        simp only [binSem, hn]
+        exact mem_sat_hi (WuffsVerif.Props.C06.add_sound lb rb _ _ hl hr)
+      · cases h
+    · cases h
+  case satminus =>
+    simp only [binBounds] at h
+    split at h
+    · split at h
+      · rename_i lo hi hn
+        cases h
+        refine ⟨trivial, ?_⟩
+        simp only [binSem, hn]
+        exact mem_sat_lo (minusBounds_sound hf hl hr)
+      · cases h
+    · cases h
+  all_goals
+    simp only [binBounds] at h; cases h
+    exact ⟨trivial, by simp only [binSem]; exact b2i_mem01 _⟩
+
+/-- the induction behind `bounds_contain`; `raw = true` is the prefix of an
+associative chain (no refinement, no type check, no monitor on the partial result) -/
+theorem bounds_contain_aux {env : Env} {fs : List Expr} (hf : FactsHold env fs) :
+    ∀ (e : Expr) (raw : Bool) (b : IR), varsOk env e → bcheck fs raw e = some b →
+      safe env raw e ∧ b.mem (evalI env e) ∧
+        (raw = false → (typeOf e).base ≠ .ideal → inType (typeOf e) (evalI env e)) := by
+  intro e
+  induction e with
+  | const v =>
+    intro raw b _ h
+    simp only [bcheck] at h; cases h
+    refine ⟨trivial, by simp [mem_mkIR, evalI], ?_⟩
+    intro _ hne; simp [typeOf] at hne
+  | var n t =>
+    intro raw b hv h
+    simp only [bcheck] at h
+    split at h
+    · cases h
+    · rename_i tb ht
+      simp only [varsOk] at hv
+      have hm : tb.mem (evalI env (.var n t)) := (typeBounds_mem_iff ht _).2 hv
+      obtain ⟨h1, h2⟩ := finish_sound hf h hm
+      exact ⟨trivial, h1, fun _ _ => h2⟩
+  | unary op e ih =>
+    intro raw b hv h
+    simp only [varsOk] at hv
+    simp only [bcheck] at h
+    split at h
+    · cases h
+    · rename_i rb hrb
+      obtain ⟨hs, hm, _⟩ := ih false rb hv hrb
+      split at h
+      · cases h
+      · rename_i nb hnb
+        have hmn : nb.mem (evalI env (.unary op e)) := by
+          cases op
+          · simp only [unaryBounds] at hnb; cases hnb; simpa [evalI] using hm
+          · simp only [unaryBounds] at hnb
+            split at hnb
+            · rename_i a c ha hc
+              cases hnb
+              have := mem_lo hm ha
+              have := mem_hi hm hc
+              simp only [evalI, mem_mkIR]; omega
+            · cases hnb
+          · simp only [unaryBounds] at hnb; cases hnb
+            simp only [evalI]; exact b2i_mem01 _
+        obtain ⟨h1, h2⟩ := finish_sound hf h hmn
+        refine ⟨?_, h1, fun _ _ => h2⟩
+        cases op
+        · exact hs
+        · exact ⟨hs, by simpa [evalI] using h2.1⟩
+        · exact hs
+  | binary op l r ihl ihr =>
+    intro raw b hv h
+    simp only [varsOk] at hv
+    simp only [bcheck] at h
+    split at h
+    · cases h
+    · rename_i lb hlb
+      obtain ⟨hsl, hml, htl⟩ := ihl false lb hv.1 hlb
+      split at h
+      · cases h
+      · rename_i rb hrb
+        obtain ⟨hsr, hmr, _⟩ := ihr false rb hv.2 hrb
+        split at h
+        · cases h
+        · rename_i nb hnb
+          obtain ⟨hmon, hmn⟩ := binBounds_sound hf hml hmr
+            (fun _ hne => (htl rfl hne).1) hnb
+          have hmn' : nb.mem (evalI env (.binary op l r)) := by simpa [evalI] using hmn
+          obtain ⟨h1, h2⟩ := finish_sound hf h hmn'
+          exact ⟨⟨hsl, hsr, hmon, fun _ => h2.1⟩, h1, fun _ _ => h2⟩
+  | «as» t e ih =>
+    intro raw b hv h
+    simp only [varsOk] at hv
+    simp only [bcheck] at h
+    split at h
+    · cases h
+    · rename_i eb heb
+      obtain ⟨hs, hm, _⟩ := ih false eb hv heb
+      have hm' : eb.mem (evalI env (.as t e)) := by simpa [evalI] using hm
+      obtain ⟨h1, h2⟩ := finish_sound hf h hm'
+      refine ⟨⟨hs, ?_⟩, h1, fun _ _ => h2⟩
+      simpa [typeOf, evalI] using h2
+  | assoc op pre l r ihl ihr =>
+    intro raw b hv h
+    simp only [varsOk] at hv
+    simp only [bcheck] at h
+    split at h
+    · cases h
+    · rename_i hassoc
+      split at h
+      · cases h
+      · rename_i lb hlb
+        obtain ⟨hsl, hml, _⟩ := ihl pre lb hv.1 hlb
+        split at h
+        · cases h
+        · rename_i rb hrb
+          obtain ⟨hsr, hmr, _⟩ := ihr false rb hv.2 hrb
+          split at h
+          · cases h
+          · rename_i nb hnb
+            have hnm : op ≠ .modshl := by
+              intro hc; subst hc; simp [BOp.isAssoc] at hassoc
+            obtain ⟨hmon, hmn⟩ := binBounds_sound hf hml hmr
+              (fun hc => absurd hc hnm) hnb
+            have hmn' : nb.mem (evalI env (.assoc op pre l r)) := by simpa [evalI] using hmn
+            split at h
+            · rename_i hraw
+              cases h
+              refine ⟨⟨hsl, hsr, hmon, fun hc => ?_⟩, hmn', fun hc => ?_⟩ <;> simp_all
+            · obtain ⟨h1, h2⟩ := finish_sound hf h hmn'
+              exact ⟨⟨hsl, hsr, hmon, fun _ => h2.1⟩, h1, fun _ _ => h2⟩
+
+theorem bounds_contain' {env : Env} {fs : List Expr} {e : Expr} {b : IR}
+    (hf : FactsHold env fs) (hv : varsOk env e) (h : bcheck fs false e = some b) :
+    safe env false e ∧ b.mem (evalI env e) :=
+  let r := bounds_contain_aux hf e false b hv h
+  ⟨r.1, r.2.1⟩
+
+theorem bounds_contain_type' {env : Env} {fs : List Expr} {e : Expr} {b : IR}
+    (hf : FactsHold env fs) (hv : varsOk env e) (h : bcheck fs false e = some b)
+    (hne : (typeOf e).base ≠ .ideal) : inType (typeOf e) (evalI env e) :=
+  (bounds_contain_aux hf e false b hv h).2.2 rfl hne
+
 end WuffsVerif.Proof.WCoreBounds
